@@ -167,9 +167,11 @@ def _lemma_worker(task):
 def run_prover(root, prop, tier, jobs):
     REG, todo = load_contracts(prop)
     tasks = [(root, prop, key, idx, tier) for key, idx in todo]
-    if not tasks:
+    if not tasks and not any(p == prop for (p, _n, _f) in REG.static_checks):
         raise SystemExit("no verified contracts for %s" % prop)
     def run_tasks(ts):
+        if not ts:
+            return []
         if jobs <= 1 or len(ts) == 1:
             return [_worker(t) for t in ts]
         ctx = mp.get_context("fork")
